@@ -17,6 +17,17 @@ let id_of_index k =
   | None -> let i = Url.parse_uid (bytes_of_string (fake_name k)) in Hashtbl.add id_tbl k i; i
 
 let st = ref Files.init
+(* model time in hours: AGE h makes every upload record h hours older = the clock moves on by h *)
+let clock = ref 0
+(* (topic, user) -> (want, given) as set up by TOPIC (the owner: full access) and MEMBER lines *)
+let members : ((string * string) * (int * int)) list ref = ref []
+let mode_of_string (m : string) : int =
+  let bit c = match c with
+    | 'J' -> 1 | 'R' -> 2 | 'W' -> 4 | 'P' -> 8 | 'A' -> 16 | 'S' -> 32 | 'D' -> 64 | 'O' -> 128 | _ -> 0 in
+  let r = ref 0 in String.iter (fun c -> r := !r lor bit c) m; !r
+let call_letter = function
+  | FilesSaveC16b.CTopicUpdateOnMessage -> "T" | FilesSaveC16b.CMessageSave -> "M"
+  | FilesSaveC16b.CSubsUpdate -> "S" | FilesSaveC16b.CFileLinkAttachments -> "L"
 let uploaded : int list ref = ref []
 let pubs : (int * int) list ref = ref []      (* publish index -> topic index *)
 let owners : (string * string) list ref = ref []   (* topic -> the user that created it *)
@@ -125,7 +136,7 @@ let handle (w : string list) : string =
               u_limit = z_of_int (int_of_string (g "lim"));
               u_body = body (g "body"); u_fault = fault (g "fault") } in
     let k = int_of_string (g "fid") in
-    let (s', o) = Files.apply_upload !st r (id_of_index k) (z_of_int 0) [] in
+    let (s', o) = Files.apply_upload !st r (id_of_index k) (z_of_int !clock) [] in
     st := s';
     (match Files.effect_of o with
      | Files.EStored | Files.EResidue | Files.EResidueNoBytes -> uploaded := k :: !uploaded
@@ -134,7 +145,7 @@ let handle (w : string list) : string =
   | ["INFLIGHT"; ks; _; _] ->
     (* an upload between StartUpload and FinishUpload: record in status 'started', bytes written *)
     let k = int_of_string ks in
-    st := Files.step !st (Files.OStart (id_of_index k, z_of_int 0, []));
+    st := Files.step !st (Files.OStart (id_of_index k, z_of_int !clock, []));
     uploaded := k :: !uploaded;
     "INFLIGHT ok"
   | "SV" :: rest ->
@@ -160,6 +171,7 @@ let handle (w : string list) : string =
     "NEWACC 201"
   | ["TOPIC"; t; o; tpls] ->
     owners := (t, o) :: !owners;
+    members := ((t, o), (255, 255)) :: !members;
     st := Files.step !st (Files.OAddTopic (n_of_string t));
     st := Files.step !st (Files.OTopicAvatar (n_of_string t, resolve tpls));
     "TOPIC 200"
@@ -184,7 +196,54 @@ let handle (w : string list) : string =
     st := Files.step !st (Files.ODelUser (n_of_string u)); "DELUSER 200"
   | ["GC"; kind; lim] ->
     let older = match kind with
-      | "future" -> Some (z_of_int 1) | "past" -> Some (z_of_int (-1)) | _ -> None in
+      | "future" -> Some (z_of_int (!clock + 1)) | "past" -> Some (z_of_int (!clock - 1)) | _ -> None in
     st := Files.step !st (Files.OGC (older, z_of_int (int_of_string lim))); "GC true"
   | ["DUMP"] -> dump ()
+  | ["SYSLOAD"] ->
+    (* 'sys' is topic 0 of the model; it exists from the start and is never deleted *)
+    st := Files.step !st (Files.OAddTopic (n_of_int 0)); "SYSLOAD ok"
+  | ["AGE"; h] -> clock := !clock + int_of_string h; "AGE ok"
+  | ["P2P"; t; u1; u2; w1; w2] ->
+    (* a p2p topic and its two subscriptions; each party is given what the other grants by default (R and W included) *)
+    st := Files.step !st (Files.OAddTopic (n_of_string t));
+    members := ((t, u1), (mode_of_string w1, mode_of_string "JRWPA")) :: ((t, u2), (mode_of_string w2, mode_of_string "JRWPA")) :: !members;
+    "P2P ok"
+  | ["MEMBER"; t; _; u; want; given] ->
+    (* given: the topic's default for authenticated users (JRWPS) unless the owner sets it *)
+    let g = if given = "-" then mode_of_string "JRWPS" else mode_of_string given in
+    members := ((t, u), (mode_of_string want, g)) :: List.remove_assoc (t, u) !members;
+    "MEMBER ok"
+  | ["PUBX"; _; a; t; k; _; tpls] ->
+    (* Topic.saveAndBroadcastMessage + messagesMapper.Save (Sys/FilesSaveC16b.v) for the acting user a:
+       modes from the subscription (none: 0, 0), the k-th adapter call fails *)
+    let is_sys = (t = "sys") in
+    let tn = if is_sys then n_of_int 0 else n_of_string t in
+    let (want, given) = try List.assoc (t, a) !members with Not_found -> (0, 0) in
+    let rbs = FilesSaveC16b.is_reader_c16b (n_of_int (want land given)) in
+    let uid = n_of_string a in
+    let ft =
+      if k = "-" then FilesSaveC16b.no_faults_c16b else
+      (* position of the failing call: TopicUpdateOnMessage, MessageSave, [SubsUpdate], FileLinkAttachments *)
+      let k = int_of_string k in
+      let has_subs = rbs && uid <> n_of_int 0 in
+      { FilesSaveC16b.ff_topic = (k = 1); ff_msg = (k = 2); ff_subs = (has_subs && k = 3);
+        ff_link = (if has_subs then k = 4 else k = 3) } in
+    let s0 = { FilesSaveC16b.sv_fs = !st; sv_seq = [(tn, n_of_int 0)];
+               sv_subs = (if List.mem_assoc (t, a) !members
+                          then [{ FilesSaveC16b.sb_topic = tn; sb_user = uid; sb_recv = n_of_int 0; sb_read = n_of_int 0 }]
+                          else []);
+               sv_calls = [] } in
+    let before = !st.Files.next_mid in
+    let (s1, o) = FilesSaveC16b.pub_save_c16b ft true (bytes_of_string serve_url) s0 is_sys
+        (n_of_int want) (n_of_int given) (n_of_int 0) tn uid (List.map bytes_of_string (expand_list tpls)) in
+    st := s1.FilesSaveC16b.sv_fs;
+    let saved = !st.Files.next_mid <> before in
+    if saved then pubs := !pubs @ [(List.length !pubs + 1, if is_sys then 0 else int_of_string t)];
+    let marked = List.exists (fun r -> r.FilesSaveC16b.sb_read = n_of_int 1) s1.FilesSaveC16b.sv_subs in
+    let calls = List.map (fun (c, failed) -> call_letter c ^ (if failed then "!" else "")) s1.FilesSaveC16b.sv_calls in
+    "PUBX saved=" ^ (if saved then "1" else "0") ^ " res=" ^
+    (match o with
+     | FilesSaveC16b.PubDenied -> "denied" | FilesSaveC16b.PubFailed -> "failed" | FilesSaveC16b.PubAccepted _ -> "accepted")
+    ^ " marked=" ^ (if marked && saved then "1" else "0")
+    ^ " calls=" ^ (if calls = [] then "-" else String.concat "," calls)
   | _ -> "?"
